@@ -46,6 +46,10 @@ func (st Struct) generateMarshalBebopTo(w *iohelp.ErrorWriter, settings Generate
 
 func (st Struct) generateUnmarshalBebop(w *iohelp.ErrorWriter, settings GenerateSettings) {
 	exposedName := exposeName(st.Name, settings)
+	if settings.countedStructs[st.Name] {
+		st.generateCountedUnmarshalBebop(w, settings, true)
+		return
+	}
 	writeLine(w, "func (bbp *%s) UnmarshalBebop(buf []byte) (err error) {", exposedName)
 	if len(st.Fields) > 0 {
 		writeLine(w, "\tat := 0")
@@ -63,6 +67,10 @@ func (st Struct) generateUnmarshalBebop(w *iohelp.ErrorWriter, settings Generate
 
 func (st Struct) generateMustUnmarshalBebop(w *iohelp.ErrorWriter, settings GenerateSettings) {
 	exposedName := exposeName(st.Name, settings)
+	if settings.countedStructs[st.Name] {
+		st.generateCountedUnmarshalBebop(w, settings, false)
+		return
+	}
 	writeLine(w, "func (bbp *%s) MustUnmarshalBebop(buf []byte) {", exposedName)
 	if len(st.Fields) > 0 {
 		writeLine(w, "\tat := 0")
@@ -73,6 +81,54 @@ func (st Struct) generateMustUnmarshalBebop(w *iohelp.ErrorWriter, settings Gene
 			name = unexposeName(fd.Name)
 		}
 		writeFieldReadByter("bbp."+name, fd.FieldType, w, settings, 1, false)
+	}
+	writeCloseBlock(w)
+}
+
+// generateCountedUnmarshalBebop writes the byte-slice decoder of a struct that holds a message or
+// union somewhere inside it. Such a struct can be longer on the wire than Size() of the decoded value
+// (a newer writer may have sent message fields this schema does not know), so the decoder proper
+// reports how many bytes it consumed and the struct's parents advance by that count.
+func (st Struct) generateCountedUnmarshalBebop(w *iohelp.ErrorWriter, settings GenerateSettings, safe bool) {
+	exposedName := exposeName(st.Name, settings)
+	method, ret := "unmarshalBebopN", " (err error)"
+	if safe {
+		writeLine(w, "func (bbp *%s) UnmarshalBebop(buf []byte) (err error) {", exposedName)
+		writeLine(w, "\tvar n int")
+		writeLine(w, "\treturn bbp.unmarshalBebopN(buf, &n)")
+		writeCloseBlock(w)
+	} else {
+		method, ret = "mustUnmarshalBebopN", ""
+		writeLine(w, "func (bbp *%s) MustUnmarshalBebop(buf []byte) {", exposedName)
+		writeLine(w, "\tvar n int")
+		writeLine(w, "\tbbp.mustUnmarshalBebopN(buf, &n)")
+		writeCloseBlock(w)
+	}
+	writeLine(w, "// %s decodes like its exported counterpart and sets n to the number of bytes of buf it consumed.", method)
+	writeLine(w, "func (bbp *%s) %s(buf []byte, n *int)%s {", exposedName, method, ret)
+	writeLine(w, "\tat := 0")
+	for _, fd := range st.Fields {
+		name := exposeName(fd.Name, settings)
+		if st.ReadOnly {
+			name = unexposeName(fd.Name)
+		}
+		writeFieldReadByter("bbp."+name, fd.FieldType, w, settings, 1, safe)
+	}
+	writeLine(w, "\t*n = at")
+	if safe {
+		writeLine(w, "\treturn nil")
+	}
+	writeCloseBlock(w)
+	if safe {
+		writeLine(w, "func make%[1]sFromBytesN(buf []byte, n *int) (%[1]s, error) {", exposedName)
+		writeLine(w, "\tv := %s{}", exposedName)
+		writeLine(w, "\terr := v.unmarshalBebopN(buf, n)")
+		writeLine(w, "\treturn v, err")
+	} else {
+		writeLine(w, "func mustMake%[1]sFromBytesN(buf []byte, n *int) %[1]s {", exposedName)
+		writeLine(w, "\tv := %s{}", exposedName)
+		writeLine(w, "\tv.mustUnmarshalBebopN(buf, n)")
+		writeLine(w, "\treturn v")
 	}
 	writeCloseBlock(w)
 }
